@@ -66,6 +66,38 @@ def make_script(rng):
     return defs, out
 
 
+BOUNDARY_CMDS = ["CMD FAKE_DROP 3 0", "CMD FAKE_DROP 0 0", "CMD FAKE_DROP 2 -1", "CMD FAKE_DROP -1", "CMD FAKE_DROP 1 1", "CMD FAKE_DROP 9999999999 1",
+                 "CMD FAKE_TOA 10 -1", "CMD FAKE_TOA 10 0", "CMD FAKE_TOA -99999 99999", "CMD FAKE_CI 10 -1", "CMD FAKE_CI 99999 0", "CMD FAKE_RSSI -200 0", "CMD FAKE_RSSI -60 -1",
+                 "CMD SETTA 64", "CMD SETTA -1", "CMD SETTA 0", "CMD SETPOWER -5", "CMD SETPOWER 1000", "CMD RFMUTE 2", "CMD RFMUTE -1", "CMD SETFORMAT 15", "CMD SETFORMAT 16",
+                 "CMD SETFH 64 0 935000 890000", "CMD SETFH 0 64 935000 890000", "CMD SETFH 0 0 935000 890000", "CMD SETFH 1 1 0 0", "CMD SETFH 63 63 -1 -1 935000 890000",
+                 "CMD RXTUNE 0", "CMD TXTUNE -1", "CMD RXTUNE 99999999999", "CMD MEASURE -1", "CMD MEASURE 0", "CMD NOMTXPOWER", "CMD FAKE_TRXC_DELAY -1", "CMD FAKE_TRXC_DELAY 0"]
+
+
+def boundary_script(rng):
+    """BTS and MS tuned to each other and powered on; after EVERY boundary / degenerate command (accepted or not) bursts flow in both
+    directions and the clock ticks: a value that was wrongly accepted shows as an exception in the tick or as a dead link"""
+    F1, F2 = W.FREQS[0], W.FREQS[2]
+    ops = [("ctrl", 0, W.cmd("CMD RXTUNE %d" % F2)), ("ctrl", 0, W.cmd("CMD TXTUNE %d" % F1)), ("ctrl", 1, W.cmd("CMD RXTUNE %d" % F1)), ("ctrl", 1, W.cmd("CMD TXTUNE %d" % F2)),
+           ("ctrl", 0, W.cmd("CMD SETFORMAT %d" % rng.below(2))), ("ctrl", 1, W.cmd("CMD SETFORMAT 1")), ("ctrl", 0, W.cmd("CMD POWERON")), ("ctrl", 1, W.cmd("CMD POWERON")),
+           ("draws", [rng.below(1 << 20) for _ in range(400)])]
+    vers = [0, 1]
+    fn = rng.choice([0, 3, W.H - 20, rng.below(W.H)])
+    for _ in range(rng.range(8, 16)):
+        i = rng.below(2)
+        ops.append(("ctrl", i, W.cmd(rng.choice(BOUNDARY_CMDS))))
+        for _ in range(2):
+            for j in (0, 1):
+                # both versions: the one in force is queued, the other is dropped - either way nothing may raise
+                ops.append(("data", j, W.tx_datagram(rng.below(2), fn, rng.below(8), rng.choice([0, 10]), W.rand_burst(rng, rng.choice([148, 444])))))
+                ops.append(("data", j, W.tx_datagram(1 - rng.below(2), fn, rng.below(8), 0, W.rand_burst(rng, 148))))
+            ops.append(("tick", fn))
+            fn = (fn + 1) % W.H
+        if rng.chance(1, 4):
+            ops.append(("ctrl", i, W.cmd("CMD POWEROFF"))); ops.append(("ctrl", i, W.cmd("CMD RXTUNE %d" % (F2 if i == 0 else F1)))); ops.append(("ctrl", i, W.cmd("CMD POWERON")))
+    ops.append(("state",))
+    return [], ops
+
+
 def oracle(ctx, script, real):
     defs, ops = script
     cfg, obs, events = real
@@ -196,7 +228,7 @@ def run(ctx):
         ctx.coqchk()
     rng = ctx.rng
     n = 100 if ctx.tier == "quick" else 4000
-    scripts = [make_script(rng) for _ in range(n)]
+    scripts = [make_script(rng) for _ in range(n)] + [boundary_script(rng) for _ in range(25 if ctx.tier == "quick" else 600)]
     reals = SC.run_scripts(ctx, "session", scripts)
     for s, r in zip(scripts, reals):
         oracle(ctx, s, r)
